@@ -141,7 +141,10 @@ func (Engine) Generate(r *simcore.RNG, tier string, idx int) *simcore.Plan {
 			}
 			st := txStep(kind)
 			if sfHeavy && kind == "gamm-join" {
-				st.A[1] = 0 // pool 1
+				st.A[4] = 0 // pool 1
+			}
+			if sfHeavy && kind == "lock" && r.Chance(0.7) {
+				st.A = append(st.A, 1)
 			}
 			p.Steps = append(p.Steps, st)
 		}
